@@ -38,6 +38,8 @@ type worldCfg struct {
 	NoYieldAtomics []string `json:"no_yield_atomics"`
 	// type names (pkgpath.Name) whose methods get pre/post yields: "Pull" style blocking calls
 	BlockingMethods map[string]string `json:"blocking_methods"`
+	// import path -> replacement, applied textually to the non-test files of the instrumented packages
+	ImportRewrite map[string]string `json:"import_rewrite"`
 }
 
 const simrtPath = "github.com/bluenviron/mediamtx/internal/zzsim/simrt"
@@ -167,6 +169,38 @@ func main() {
 			name := packageNameOf(p)
 			name = strings.TrimSuffix(name, "_test")
 			put(p, []byte("package "+name+"\n"))
+		}
+	}
+
+	// import rewriting (simulated stand-ins for dependencies)
+	if len(cfg.ImportRewrite) > 0 {
+		for _, d := range cfg.Packages {
+			ents, err2 := os.ReadDir(filepath.Join(*repo, d))
+			if err2 != nil {
+				continue
+			}
+			for _, e := range ents {
+				if !strings.HasSuffix(e.Name(), ".go") || strings.HasSuffix(e.Name(), "_test.go") {
+					continue
+				}
+				p := filepath.Join(*repo, d, e.Name())
+				data, ok := content[p]
+				if !ok {
+					data, err2 = os.ReadFile(p)
+					must(err2)
+				}
+				changed := false
+				for from, to := range cfg.ImportRewrite {
+					q := []byte(fmt.Sprintf("%q", from))
+					if bytes.Contains(data, q) {
+						data = bytes.ReplaceAll(data, q, []byte(fmt.Sprintf("%q", to)))
+						changed = true
+					}
+				}
+				if changed {
+					put(p, data)
+				}
+			}
 		}
 	}
 
